@@ -22,7 +22,7 @@ ASSUMPTIONS = [
 
 def cases(tier):
     out = []
-    reps = 1 if tier == "quick" else 12
+    reps = 1 if tier == "quick" else 100
     for n in (1, 2, 3, 4):
         for k in range(1, n + 1):
             for comb in itertools.combinations(range(n), k):
@@ -30,13 +30,13 @@ def cases(tier):
                 for s in orders:
                     for r in range(reps):
                         out.append(("num", n, s, r))
-    for r in range(60 if tier == "quick" else 3000):
+    for r in range(60 if tier == "quick" else 25000):
         out.append(("num", 5, None, r))
-    for r in range(60 if tier == "quick" else 1500):
+    for r in range(60 if tier == "quick" else 12000):
         out.append(("meta", r))
-    for r in range(40 if tier == "quick" else 800):
+    for r in range(40 if tier == "quick" else 6000):
         out.append(("forms", r))
-    for r in range(40 if tier == "quick" else 800):
+    for r in range(40 if tier == "quick" else 4000):
         out.append(("cvx", r))
     if tier == "thorough":
         out.append(("suite", 0))
